@@ -4,12 +4,17 @@ import Driver.SValJson
 import Driver.ArrJson
 import Driver.Suites.Build
 import SaModel.Build.Finish
+import SaModel.Build.Wrappers
 import SaModel.Spec.Interp
 /-
 suite `present` (C11): k renderings of one logical batch.
   agree : the builder model reproduces every rendering's outcome and arrays;
   spec  : C11  all renderings that the documented mapping (Spec.interp) gives the same logical rows produce
-               physically identical arrays, and succeed or fail together; C16 no panic.
+               physically identical arrays, and succeed or fail together; the real `Items(&[T])` wrapper, a slice
+               of real `Item(T)` wrappers and explicit one-field records named `item` (column `item: Struct(schema)`,
+               items = the records of rendering 0) give physically identical arrays / the same outcome, and the
+               model of the wrappers' `Serialize` impls (`Build.serItems`, `Build.serItem`) reproduces them;
+          C16 no panic.
 -/
 namespace Driver.Suites.Present
 open Lean Driver SaModel SaModel.Build SaModel.Spec Driver.Suites.Build
@@ -95,7 +100,52 @@ def handle (j : Json) : Except String Verdict := do
           sig := "present/C11/repeated-field-accepted"
           why := s!"malformed rendering #{midx}: a record gives a schema field twice (the documented mapping is undefined) but the conversion succeeded"
     midx := midx + 1
-  let tags := (kinds.map (fun k => "row:" ++ k)).eraseDups ++ (fields.flatMap schemaTags).eraseDups ++ [if allSame then "one-batch" else "not-one-batch"]
+  -- Item / Items wrappers: impl_items = [Items(&[T]), [Item(T)], explicit records]; the model runs `serItem`
+  let itemsImpl := ((getArr j "impl_items").toOption.map (·.toList)).getD []
+  let mut itemTags : List String := []
+  if !itemsImpl.isEmpty then
+    let rows0 := rends.headD []
+    let itemFields : List Field := [.mk "item" (.struct (Fields.ofList fields)) false []]
+    -- what `to_marrow(&fields, &Items(rows))` serializes: `serItems`, a `seq` whose elements are the `serItem`s
+    let modelRows : List SVal := match serItems 1 rows0 with
+      | .seq xs => xs.toList
+      | _ => []
+    let model := toMarrow ext itemFields modelRows
+    let mut iouts : List (Option (List Arr)) := []
+    let mut iidx := 0
+    for io in itemsImpl do
+      let cls := implCls io
+      if cls == "panic" || cls == "hang" then c16 := "fail"
+      if model.cls != cls then
+        agree := false
+        if sig == "" then
+          sig := s!"present/items/class/model={model.cls}/impl={cls}"
+          why := s!"Item/Items way #{iidx}: model {model.cls} {repr model.ann}, implementation {cls}"
+        iouts := iouts ++ [none]
+      else
+        match model with
+        | .ok marrs =>
+          let iarrs ← (← getArr io "ok").toList.mapM arrOfJson
+          if iarrs.map decodeAll != marrs.map decodeAll && !fsb0 then
+            agree := false
+            if sig == "" then
+              sig := "present/items/decoded-differs"
+              why := s!"Item/Items way #{iidx}: decoded arrays differ between model and implementation"
+          iouts := iouts ++ [some iarrs]
+        | .error _ => iouts := iouts ++ [none]
+      iidx := iidx + 1
+    let clss := itemsImpl.map implCls
+    let sameCls := clss.all (· == clss.headD "")
+    let sameArrs := match iouts.headD none with
+      | none => true
+      | some first => iouts.all (fun o => o == some first)
+    if !(sameCls && sameArrs) then
+      c11 := "fail"
+      if sig == "" || sig.startsWith "present/items/class" then
+        sig := "present/C11/items-differ-from-record"
+        why := s!"Items(&[T]) / [Item(T)] / explicit one-field records named item gave different outcomes {clss} or arrays"
+    itemTags := ["items:" ++ clss.headD ""]
+  let tags := itemTags ++ (kinds.map (fun k => "row:" ++ k)).eraseDups ++ (fields.flatMap schemaTags).eraseDups ++ [if allSame then "one-batch" else "not-one-batch"]
     ++ (if nUndefined > 0 then ["malformed:repeated-schema-field"] else if mal.isEmpty then [] else ["malformed:repeat-harmless"])
   return { agree := agree, spec := [("C11", c11), ("C16", c16)], tags := tags, sig := sig, why := why }
 
